@@ -324,6 +324,7 @@ struct Gen {
     if (!Has(F_HOSTILE_NAMES)) return base;
     static const char* kDeco[] = {"", " sp", "$d", "'q", ";sc", "*", "&a", "\"dq", "(p)", "\\b", "~t", "#h", "\xc3\xa9", "a:b", "%p", ">r"};
     int k = (int)(Hash64(base, (uint64_t)name_style * 131 + salt) % 24);
+    if (k == 16 || k == 17) return (k == 16 ? "'" : "\"") + base;   // a name that BEGINS with a quote
     if (k >= 16) return base;
     // depfile syntax has no spelling for ; * > - a compiler could not report such a name, so
     // scenarios with depfiles use the escapable ones (space, #, $) instead
@@ -553,7 +554,10 @@ struct Gen {
         e.restat = C(4) == 0;
         dd.entries.push_back(e);
       }
-      if (dd.entries.empty()) { if (dd.producer >= 0) sc.stmts[dd.producer].outs.pop_back(); continue; }
+      if (dd.entries.empty()) {
+        if (dd.producer >= 0) for (auto* v : {&sc.stmts[dd.producer].outs, &sc.stmts[dd.producer].imp_outs}) v->erase(std::remove(v->begin(), v->end(), dd.path), v->end());
+        continue;
+      }
       if (dd.producer < 0) sc.sources.push_back(dd.path);
       sc.dyndeps.push_back(dd);
     }
